@@ -519,6 +519,49 @@ OPTION_SHAPES = [('globals-none', {'globals': None}), ('globals-absent', {'globa
                  ('systemPrefix-none', {'systemPrefix': None}), ('debug-none', {'debug': None})]
 
 
+ODD_LOCATIONS = ['mem:lib.bare', 'data:x', 'c:lib.bare', 'lib.bare', '/abs/lib.bare', 'http://h/a/b.bare', 'http://h',
+                 'dir/sub/inc.bare', 'a//b.bare', 'x/../../y.bare', '../up.bare', './here.bare', 'UP:lib.bare', 'q?x=1/2',
+                 'sp ace/f.bare', 'é/𝄞.bare', 'mem:', '/', 'dir/', 'file:///p/q.bare']
+ODD_PREFIXES = [None, 'mem:', 'sys', 'sys/', '', '/', 'http://h/sys/', 'c:', '../s/']
+
+
+def run_odd_includes(seed, stats):
+    from bare_script import execute_script, BareScriptRuntimeError, BareScriptParserError
+    r = _random.Random(seed)
+    first = r.choice(ODD_LOCATIONS)
+    second = r.choice(ODD_LOCATIONS + ['next.bare', 'sub/next.bare'])
+    prefix = r.choice(ODD_PREFIXES)
+    base = r.choice([None, None, 'main.bare', 'mem:main.bare', 'http://h/app/main.bare', '/srv/app/main.bare'])
+    system_first = r.random() < 0.3
+    fetched = []
+
+    def fetch_fn(request):
+        url = request['url']
+        fetched.append(url)
+        if len(fetched) == 1:
+            return f"include {ir.render_string(second)}\ninclude <util.bare>\noddA = 1\n"
+        return 'oddB = 2\n'
+
+    options = {'globals': {}, 'fetchFn': fetch_fn, 'maxStatements': 200}
+    if prefix is not None:
+        options['systemPrefix'] = prefix
+    if base is not None:
+        import functools
+        from bare_script.options import url_file_relative
+        options['urlFn'] = functools.partial(url_file_relative, base)
+    model = {'statements': [{'include': {'includes': [dict({'url': first}, **({'system': True} if system_first else {}))]}}]}
+    case = {'first': first, 'second': second, 'systemPrefix': prefix, 'base': base, 'system_first': system_first}
+    stats.faults['odd_include_location'] += 1
+    try:
+        execute_script(model, options)
+    except (BareScriptRuntimeError, BareScriptParserError) as exc:
+        return ('documented', type(exc).__name__, len(fetched))
+    except Exception as exc:  # pylint: disable=broad-except
+        return ('host', type(exc).__name__, str(exc)[:200], case)
+    stats.probes['odd_include_locations_resolved'] += 1
+    return ('ok', None, len(fetched))
+
+
 def pathological_globals():
     """Host-supplied BareScript values that make serialisation / traversal fail inside library code: an array
     nested deeper than the interpreter's recursion limit, the same for objects, and a cyclic array. They are only
@@ -617,6 +660,17 @@ def run_adversarial(plan, stats):
             stats.faults['option_shape:' + name] += 1
             dig.append(out.summary())
             check_escape_value(out, viols, 'options:' + name, producers_of(plan))
+        # include statements over unusual but legal locations (a scheme without a slash, a bare name, an absolute
+        # path, '..' segments, an empty or slash-less system prefix), two levels deep, served by a fetch function that
+        # has every location: resolution runs outside the call wrapper, and nothing but the documented errors may
+        # come out of it
+        if not viols and plan.get('seed', 0) % 4 == 1:
+            out = run_odd_includes(plan.get('seed', 0), stats)
+            stats.c['evaluations'] += 1
+            dig.append(out)
+            if out[0] == 'host':
+                viols.append(Violation(PROP, 'escape', f'host-exception-escapes:{out[1]}:include-resolution',
+                                       {'exception': out[1], 'message': out[2], 'case': out[3]}))
     finally:
         lib.random = saved_random
     if not viols and False in outs and True in outs:
